@@ -688,7 +688,8 @@ def keyed_cancellation_reaches_every_live_task_of_the_domain(n: int, k0: bool, k
     is_loc = [k0, k1, k2, k3]
     fin = [f0, f1, f2, f3]
     tm = AsyncTasks()
-    tasks = [RegTask("LOC:helper" if is_loc[i] else "SPA:other", fin[i]) for i in range(n)]
+    # the other domain's name STARTS with the cancelled key (as SPAMAN starts with SPA): only the key up to the colon counts
+    tasks = [RegTask("LOC:helper" if is_loc[i] else "LOCMAN:other", fin[i]) for i in range(n)]
     tm._tasks = list(tasks)
     tm.cancel_key_tasks("LOC")
     for i in range(n):
